@@ -77,6 +77,13 @@ func (f *fn) expr(x ast.Expr, e *env, want *ty) val {
 		if text, t := f.globalTable(x); t != nil {
 			return val{text: text, t: t}
 		}
+		if c, ok := f.p.consts[x.Name]; ok { // a package-level constant that is one literal: read as that literal
+			v := f.expr(c, e, want)
+			if v.t.k == kInt && strings.HasPrefix(v.text, "-") {
+				v.text = "(" + v.text + ")"
+			}
+			return v
+		}
 		f.fail(x, "identifier %s is not a local variable", x.Name)
 	case *ast.UnaryExpr:
 		switch x.Op {
@@ -154,12 +161,36 @@ func (f *fn) expr(x ast.Expr, e *env, want *ty) val {
 		binds = append(binds, fmt.Sprintf("let %s ← getIdx %s %s", t, atomV(text), atomV(i.text)))
 		return val{binds: binds, text: t, t: xs.t.elem}
 	case *ast.SliceExpr:
-		if x.High != nil || x.Max != nil || x.Low == nil || x.Slice3 {
-			f.fail(x, "slice expression other than xs[k:]")
+		if x.Max != nil || x.Slice3 || (x.Low == nil && x.High == nil) {
+			f.fail(x, "slice expression other than xs[k:] / arr[:k] / arr[a:b]")
 		}
 		xs := f.expr(x.X, e, nil)
 		if xs.t.k != kSlice {
 			f.fail(x, "slice of a %s", xs.t.lean())
+		}
+		if x.High != nil { // arr[:k], arr[a:b] of an ARRAY (len = cap: the bound check is against the length, as in Go)
+			if xs.t.arr <= 0 || xs.t.opt {
+				f.fail(x, "slice expression with an upper bound on something other than an array")
+			}
+			hi := f.expr(x.High, e, tInt)
+			if hi.t.k != kInt {
+				f.fail(x.High, "slice bound is not an int")
+			}
+			binds := append(append([]string{}, xs.binds...), hi.binds...)
+			t := f.newTmp()
+			binds = append(binds, fmt.Sprintf("let %s ← sliceTo %s %s", t, atomV(xs.text), atomV(hi.text)))
+			rt := &ty{k: kSlice, elem: xs.t.elem}
+			if x.Low == nil {
+				return val{binds: binds, text: t, t: rt}
+			}
+			lo := f.expr(x.Low, e, tInt)
+			if lo.t.k != kInt {
+				f.fail(x.Low, "slice bound is not an int")
+			}
+			binds = append(binds, lo.binds...)
+			t2 := f.newTmp()
+			binds = append(binds, fmt.Sprintf("let %s ← sliceFrom %s %s", t2, t, atomV(lo.text)))
+			return val{binds: binds, text: t2, t: rt}
 		}
 		lo := f.expr(x.Low, e, tInt)
 		if lo.t.k != kInt {
@@ -464,8 +495,9 @@ func (f *fn) call(c *ast.CallExpr, e *env, want *ty) val {
 						f.fail(c, "make with a capacity that is not an int")
 					}
 					binds = append(binds, cp.binds...)
-					if !sameExpr(c.Args[1], c.Args[2]) {
-						f.fail(c, "make with a capacity different from the length")
+					if !sameExpr(c.Args[1], c.Args[2]) && !f.selfAppendsOnly() {
+						// spare capacity shows only when two slices built by append from one share storage
+						f.fail(c, "make with a capacity different from the length in a function that appends to another variable's slice")
 					}
 				}
 				tmp := f.newTmp()
